@@ -227,6 +227,7 @@ func traverseArrayWithIndices(node *CandidateNode, indices []*CandidateNode, pre
 			if contentLength == 0 {
 				// default to nice yaml formatting
 				node.Style = 0
+				node.lineCommentToHead()
 			}
 
 			valueNode := createScalarNode(nil, "null")
@@ -272,6 +273,7 @@ func traverseMap(context Context, matchingNode *CandidateNode, keyNode *Candidat
 
 		if len(matchingNode.Content) == 0 {
 			matchingNode.Style = 0
+			matchingNode.lineCommentToHead()
 		}
 
 		keyNode, valueNode = matchingNode.AddKeyValueChild(keyNode, valueNode)
